@@ -94,3 +94,11 @@ func alpnList(r *rand.Rand) []string {
 	}
 	return l
 }
+
+// innerNameOrNone: an inner hello usually names a server, but need not (the extension is optional).
+func innerNameOrNone(r *rand.Rand) string {
+	if r.IntN(6) == 0 {
+		return ""
+	}
+	return hostName(r)
+}
